@@ -1,0 +1,94 @@
+/* This Source Code Form is subject to the terms of the Mozilla Public
+ * License, v. 2.0. If a copy of the MPL was not distributed with this
+ * file, You can obtain one at https://mozilla.org/MPL/2.0/. */
+//! Read-only state snapshot for external verification harnesses.
+//!
+//! Only compiled with `--cfg foca_verif`. Nothing here changes behaviour:
+//! it merely copies private state out so that a harness can compare it
+//! against a specification after every public call.
+use alloc::vec::Vec;
+
+use crate::{
+    BroadcastHandler, Codec, Config, Foca, Identity, Incarnation, Member, ProbeNumber, TimerToken,
+};
+
+/// A copy of every piece of state a [`Foca`] instance holds, other than
+/// the user-supplied codec, rng and broadcast handler.
+#[derive(Debug, Clone)]
+pub struct VerifSnapshot<T> {
+    /// Current incarnation
+    pub incarnation: Incarnation,
+    /// Current timer token
+    pub timer_token: TimerToken,
+    /// 0 = Disconnected, 1 = Connected, 2 = Undead
+    pub connection_state: u8,
+    /// Probe: member being probed (snapshot taken when the probe started)
+    pub probe_direct: Option<Member<T>>,
+    /// Probe: members asked to probe indirectly that haven't replied yet
+    pub probe_indirect: Vec<T>,
+    /// Probe: current probe number
+    pub probe_number: ProbeNumber,
+    /// Probe: whether a direct ack has been received
+    pub probe_direct_ack_ok: bool,
+    /// Probe: how many indirect acks have been received
+    pub probe_indirect_ack_count: usize,
+    /// Probe: whether the indirect probe stage has been reached
+    pub probe_reached_indirect: bool,
+    /// Every member record, in internal order
+    pub members: Vec<Member<T>>,
+    /// Round-robin cursor
+    pub cursor: usize,
+    /// Cached number of active members
+    pub num_active: usize,
+    /// Cluster updates backlog: (encoded member, remaining transmissions)
+    pub updates: Vec<(Vec<u8>, usize)>,
+    /// Custom broadcasts backlog: (item, remaining transmissions)
+    pub custom_broadcasts: Vec<(Vec<u8>, usize)>,
+    /// Capacity of the send buffer
+    pub send_buf_capacity: usize,
+    /// Current configuration
+    pub config: Config,
+}
+
+impl<T, C, RNG, B> Foca<T, C, RNG, B>
+where
+    T: Identity,
+    C: Codec<T>,
+    C::Error: core::error::Error,
+    RNG: rand::Rng,
+    B: BroadcastHandler<T>,
+    B::Error: core::error::Error + 'static,
+{
+    /// Copies the full internal state out. See [`VerifSnapshot`].
+    pub fn verif_snapshot(&self) -> VerifSnapshot<T> {
+        let (probe_direct, probe_indirect, probe_number, ack_ok, ack_count, reached) =
+            self.probe.verif_parts();
+        VerifSnapshot {
+            incarnation: self.incarnation,
+            timer_token: self.timer_token,
+            connection_state: match self.connection_state {
+                crate::ConnectionState::Disconnected => 0,
+                crate::ConnectionState::Connected => 1,
+                crate::ConnectionState::Undead => 2,
+            },
+            probe_direct,
+            probe_indirect,
+            probe_number,
+            probe_direct_ack_ok: ack_ok,
+            probe_indirect_ack_count: ack_count,
+            probe_reached_indirect: reached,
+            members: self.members.inner.clone(),
+            cursor: self.members.verif_cursor(),
+            num_active: self.members.num_active(),
+            updates: self.updates.verif_entries(),
+            custom_broadcasts: self.custom_broadcasts.verif_entries(),
+            send_buf_capacity: self.send_buf.capacity(),
+            config: self.config.clone(),
+        }
+    }
+
+    /// Read access to the broadcast handler given at construction.
+    pub fn verif_broadcast_handler(&self) -> &B {
+        &self.broadcast_handler
+    }
+}
